@@ -224,6 +224,9 @@ fn gen_pool(r: &mut Rng) -> Pool {
     p.mains[0].push_str("{% include 'p0' %}{% render 'p1', a: a, b: b, c: c, d: d %}{{ '<b>x</b>' | strip_html }}{{ '2020-01-02' | date: '%Y' }}{% for i in (1..3) %}{% cycle 'q': 1, 2 %}{% increment n %}{% ifchanged %}{{ i }}{% endifchanged %}{% endfor %}{% if false %}{% include 'pbroken' %}{% render 'missing' %}{% endif %}");
     if p.mains.len() > 1 {
         p.mains[1].push_str("{% capture q %}{% include 'p2' %}{% endcapture %}{{ q | size }}");
+        // many private-buffer constructs (ifchanged, capture) with sizeable bodies, so that
+        // per-node scratch state shared between threads would be overwritten mid-use
+        p.mains[1].push_str("{% for i in (1..8) %}{% ifchanged %}<{{ i }}:{{ c }}{{ c }}{{ b }}-{{ 'padding-padding-padding' | upcase }}>{% endifchanged %}{% capture w %}{{ i }}{{ c }}{{ c }}{% endcapture %}{{ w | size }}{% ifchanged %}same{% endifchanged %}{% endfor %}");
     }
     // one shared tag whose partial name comes from the data and differs between the data objects
     // (per-tag caches of "the" resolved partial would be shared by overlapping renders)
@@ -248,7 +251,7 @@ pub fn run(ctx: &mut Ctx, args: &[String]) {
     ctx.start_watchdog(300);
     let rounds_override: Option<u64> = args.iter().position(|a| a == "--rounds").and_then(|i| args.get(i + 1)).and_then(|s| s.parse().ok());
     let max_threads: usize = args.iter().position(|a| a == "--max-threads").and_then(|i| args.get(i + 1)).and_then(|s| s.parse().ok()).unwrap_or(16);
-    let n = rounds_override.unwrap_or(ctx.scale(320u64, 20_000u64));
+    let n = rounds_override.unwrap_or(ctx.scale(1_200u64, 20_000u64));
     let rng = ctx.rng("c20");
     for i in 0..n {
         if !ctx.mine_idx(i) {
